@@ -2,7 +2,7 @@ SPECIFICATION Spec
 CONSTANTS
   MaxN = 3
   Jobs = {2}
-  Kinds = {"float", "int", "bool", "numstr", "inf", "neginf", "neg", "bytes", "none", "nan", "badstr", "hugeint", "badobj", "hostile", "list_ok", "list_numstr", "list_short", "list_long", "list_nan_first", "list_nan_last", "list_badelem", "list_hugeint"}
+  Kinds = {"float", "int", "bool", "numstr", "inf", "neginf", "neg", "bytes", "none", "nan", "badstr", "hugeint", "badobj", "hostile", "list_ok", "list_numstr", "list_infs", "list_short", "list_long", "list_nan_first", "list_nan_last", "list_badelem", "list_hugeint"}
   WithPre = TRUE
   RepKinds = {"pruned", "float", "none"}
   Misbehave = TRUE
